@@ -8,6 +8,7 @@ package main
 import (
 	"fmt"
 	"go/types"
+	"os"
 	"sort"
 	"strings"
 
@@ -90,8 +91,18 @@ func valueRetained(p ssa.Value, depth int) bool {
 			if valueRetained(r, depth) {
 				return true
 			}
+		case *ssa.Slice:
+			if valueRetained(r, depth) {
+				return true
+			}
 		case ssa.CallInstruction:
 			com := r.Common()
+			if bi, ok := com.Value.(*ssa.Builtin); ok {
+				switch bi.Name() {
+				case "append", "copy", "len", "cap":
+					continue // elements are copied, the argument is not kept
+				}
+			}
 			cal := com.StaticCallee()
 			args := com.Args
 			for i, a := range args {
@@ -174,7 +185,11 @@ func (m *MemSSA) addrKey(v ssa.Value) string {
 		if k == "" {
 			return ""
 		}
-		return fmt.Sprintf("%s.%d", k, v.Field)
+		st, ok := deref(v.X.Type()).Underlying().(*types.Struct)
+		if !ok {
+			return ""
+		}
+		return k + "." + st.Field(v.Field).Name()
 	case *ssa.IndexAddr:
 		if c, ok := v.Index.(*ssa.Const); ok {
 			if _, isArr := deref(v.X.Type()).Underlying().(*types.Array); isArr {
@@ -210,6 +225,9 @@ func (m *MemSSA) clobberVer(in ssa.Instruction, key string) *MemVer {
 		return v
 	}
 	m.nextID++
+	if os.Getenv("MEM_DEBUG") != "" && strings.Contains(m.fn.String(), os.Getenv("MEM_DEBUG")) {
+		fmt.Printf("CLOBBER %s by %v (%T)\n", key, in, in)
+	}
 	v := &MemVer{Kind: mClobber, Key: key, Instr: in, id: m.nextID}
 	m.clobbers[id] = v
 	return v
@@ -235,6 +253,20 @@ func (m *MemSSA) transfer(in ssa.Instruction, cur map[string]*MemVer) {
 				}
 			}
 			return
+		}
+		// a store into (part of) a local allocation cannot alias parameter or global cells
+		for a := in.Addr; a != nil; {
+			switch x := a.(type) {
+			case *ssa.FieldAddr:
+				a = x.X
+				continue
+			case *ssa.IndexAddr:
+				a = x.X
+				continue
+			case *ssa.Alloc:
+				return
+			}
+			break
 		}
 		// store through an untracked pointer: may alias tracked cells of the same type
 		// that are not private locals
@@ -263,8 +295,61 @@ func (m *MemSSA) transfer(in ssa.Instruction, cur map[string]*MemVer) {
 			// closures may write captured variables; captured allocs are "escaped" already
 		}
 		pure := isPureCallee(com)
+		// repository callees: only what their effect summary says they write
+		var effKeys []string
+		useEff := false
+		if cal := com.StaticCallee(); cal != nil && inRepo(cal) && cal.Blocks != nil && globalEffects != nil {
+			useEff = true
+			for _, e := range globalEffects.of(cal) {
+				k := e.Key
+				if strings.HasPrefix(k, "P:") {
+					rest := k[2:]
+					name, tail := rest, ""
+					if i := strings.IndexAny(rest, ".[*{"); i >= 0 {
+						name, tail = rest[:i], rest[i:]
+					}
+					idx := -1
+					for i, p := range cal.Params {
+						if p.Name() == name {
+							idx = i
+						}
+					}
+					if idx < 0 || idx >= len(args) {
+						k = "?"
+					} else if base := m.addrKey(args[idx]); base != "" {
+						k = base + tail
+					} else if pb := pathOf(args[idx]); strings.HasPrefix(pb, "A:") {
+						continue
+					} else {
+						k = "?"
+					}
+				}
+				effKeys = append(effKeys, k)
+			}
+		}
 		for _, k2 := range m.keys {
 			hit := false
+			if useEff {
+				for _, e := range effKeys {
+					if e == "?" {
+						if !strings.HasPrefix(k2, "A:") {
+							hit = true
+						}
+						continue
+					}
+					// strip element/deref suffixes: a write through the cell's content does not change the cell
+					if strings.ContainsAny(e, "[*{") {
+						continue
+					}
+					if related(e, k2) {
+						hit = true
+					}
+				}
+				if hit {
+					cur[k2] = m.clobberVer(in, k2)
+				}
+				continue
+			}
 			for _, r := range roots {
 				if related(r, k2) && (k2 == r || strings.HasPrefix(k2, r)) {
 					hit = true
@@ -294,6 +379,9 @@ func isPureCallee(com *ssa.CallCommon) bool {
 	}
 	return false
 }
+
+// globalEffects, when set, refines which cells a call into the repository clobbers.
+var globalEffects *Effects
 
 func copyVers(m map[string]*MemVer) map[string]*MemVer {
 	n := make(map[string]*MemVer, len(m))
